@@ -163,7 +163,7 @@ Definition released_were_received (g : ghost) : Prop :=
 (* the known class C04-resend-lost-on-reconnect: a reconnect while re-queued stanzas are still in the send queue *)
 Definition reconnect_drops_resent (st : state) (a : action) : bool :=
   match a with
-  | AConnect => negb (connected st) && negb (crashed st) &&
+  | AConnect => negb (connected st) &&
                 existsb (fun e => countable (q_owner e) && q_resend e) (sq st)
   | _ => false
   end.
@@ -240,5 +240,5 @@ Definition aux_list (s : sys) : list bool :=
     impb (connected st && neg_done st) (negb (h_sm st) && negb (h_bind st) && negb (h_feat st));
     impb (negb (connected st)) (negb (sm_enabled st) && negb (neg_done st) && is_none (sm_id st));
     impb (connected st && h_feat st) (negb (neg_done st) && negb (h_bind st) && negb (h_sm st) && negb (sm_enabled st) && nil_b (sq st));
-    impb (resume st) (connected st && negb (h_feat st));
-    negb (crashed st) ].
+    impb (resume st) (connected st && negb (h_feat st))
+  ].
